@@ -77,7 +77,7 @@ class Quaternion(SMUserList):
 
         if v is None:
             # single argument
-            if super().arghandler(s, check=False):
+            if super().arghandler(s, check=True):
                 return
 
             elif base.isvector(s, 4):
@@ -130,7 +130,7 @@ class Quaternion(SMUserList):
         return (4,)
 
     @staticmethod
-    def isvalid(x):
+    def isvalid(x, check=True):
         """
         Test if vector is valid quaternion
 
